@@ -40,6 +40,7 @@ package cache
 //@   prop C13
 //@   requires !isnil(h)
 //@   ensures verified: isnil(err) ==> !isnil(file) && eqBytes(rsum, file.hd.RootSum) && eqBytes(dsum, file.hd.DataSum) && eqBytes(lastSum, file.hd.BodySum)
+//@   ensures keys_unchanged: refof(rsum) != refof(dsum) ==> (forall k in 0..len(rsum): rsum[k] == old(rsum[k])) && (forall k in 0..len(dsum): dsum[k] == old(dsum[k]))
 //@   ensures digest_of_body: isnil(err) ==> ghostint("sumstate") == 100
 //@   ensures positioned: isnil(err) ==> ghostint("fpos") == 3*len(file.hd.RootSum) && len(file.hd.DataSum) == len(file.hd.RootSum) && len(file.hd.BodySum) == len(file.hd.RootSum)
 
